@@ -138,14 +138,17 @@ def vmem(ctx, groups, maxlow, pin):
 @harness("C08.swap", quick=[dict(pin=None), dict(pin=0)], thorough=[dict(pin=None), dict(pin=0), dict(pin=4096)])
 def swap(ctx, pin):
     k = simk.Kernel(ctx)
-    has_swap = ctx.flag("has_swap_fields")
+    which = ctx.choice("swap_fields", ["both", "neither", "total-only", "free-only"])     # whichever is missing: the call still succeeds (sysinfo() is the source)
+    has_swap = which == "both"
     tot = ctx.int("kb_SwapTotal", 0, 2**40)
     fre = ctx.int("kb_SwapFree", 0, 2**40)
     if pin is not None:
         ctx.assume(ctx.eq(tot, pin))
     lines = "MemTotal: 8000 kB\nMemFree: 10 kB\n"
-    if has_swap:
-        lines += f"SwapCached: 0 kB\nSwapTotal: {k.num(tot, True)} kB\nSwapFree: {k.num(fre, True)} kB\n"
+    if which in ("both", "total-only"):
+        lines += f"SwapCached: 0 kB\nSwapTotal: {k.num(tot, True)} kB\n"
+    if which in ("both", "free-only"):
+        lines += f"SwapFree: {k.num(fre, True)} kB\n"
     k.files["/proc/meminfo"] = lines
     unit = ctx.int("mem_unit", 1, 4096)
     k.sysinfo = (1, 2, 3, 4, tot, fre, unit)
